@@ -124,3 +124,64 @@ def innermost_loop(it, bb):
 
 def calls_matching(it, pred):
     return [(bb, c) for bb, c in sorted(it.calls.items()) if pred(c)]
+
+
+def iteration_frame(it, bb):
+    """For a block inside a `for` loop: (start block of one iteration = Some-arm of the `next` switch,
+    loop head, iterator term) of the innermost loop, or None."""
+    lp = innermost_loop(it, bb)
+    if lp is None:
+        return None
+    head, blocks = lp
+    for x in sorted(blocks):
+        sw = it.switches.get(x)
+        if sw and sw.discr[0] == 'discr':
+            src = as_item(('field', sw.discr[1], 'Some.0'))
+            if src is not None:
+                for val, tb in sw.targets:
+                    if val == 1:
+                        return (tb, head, src)
+    return None
+
+
+def whole_iteration_over(src, param, path_suffix=None):
+    """The iterator term ranges over all of a container rooted at parameter `param` (no lossy adaptors)."""
+    base, kind, clo = iter_source(src)
+    pp = param_path(base)
+    if pp is None or pp[0] != param:
+        return False
+    if path_suffix is not None and tuple(pp[1][-len(path_suffix):]) != tuple(path_suffix) and path_suffix:
+        return False
+    if set(iter_adaptors(src)) & LOSSY_ADAPTORS:
+        return False
+    return True
+
+
+def expand_all(facts, t, stop=(), depth=6):
+    """Recursively replace calls to side-effect-free crate-local functions by their return terms."""
+    from ..ordset import local_summary
+    from ..terms import rebuild
+
+    def f(x):
+        if x[0] == 'call' and depth > 0:
+            info = cinfo(x[1])
+            if info['local'] and info['uid'] and not any(s in x[1] for s in stop):
+                s = local_summary(facts, x)
+                if s is not None and s != x:
+                    return expand_all(facts, s, stop, depth - 1)
+        return x
+    return rebuild(t, f)
+
+
+def ret_sites_by(it, pred):
+    """Return-value assignment blocks whose (alternative) value satisfies pred -> list of (bb, value)."""
+    out = []
+    for (bb, si), w in sorted(it.ret_assigns.items(), key=lambda kv: str(kv[0])):
+        for alt in phi_alts(w.val):
+            if pred(alt):
+                out.append((bb, alt))
+    return out
+
+
+def is_variant(t, adt_suffix, variant):
+    return t[0] == 'agg' and t[1].endswith(adt_suffix) and t[2] == variant
